@@ -100,7 +100,7 @@ func body(p Params) func() {
 				}
 				pubs = append(pubs, vrt.GoNamed(fmt.Sprintf("P%d", pi+1), func() {
 					for _, r := range mine {
-						r.Err = j.Publish(jh.Msg(r.Tag, ""), r.Topics)
+						r.Err = j.Publish(jh.Msg(r.Tag, ""), append([]string(nil), r.Topics...))
 						r.Returned = true
 					}
 				}))
@@ -108,7 +108,7 @@ func body(p Params) func() {
 		} else {
 			pubs = append(pubs, vrt.GoNamed("P", func() {
 				for k, r := range recs {
-					r.Err = j.Publish(jh.Msg(r.Tag, ""), r.Topics)
+					r.Err = j.Publish(jh.Msg(r.Tag, ""), append([]string(nil), r.Topics...))
 					r.Returned = true
 					if k == 0 && p.LateSub {
 						startSub(3)
@@ -152,7 +152,7 @@ func resumeFailBody(valid, auto bool, failAt int) func() {
 			if !auto {
 				m = jh.Msg(r.Tag, ids[k])
 			}
-			r.Err = j.Publish(m, r.Topics)
+			r.Err = j.Publish(m, append([]string(nil), r.Topics...))
 			r.Returned = true
 		}
 		var subs []vrt.Handle
@@ -179,7 +179,7 @@ func resumeFailBody(valid, auto bool, failAt int) func() {
 			if !auto {
 				m = jh.Msg("p1", ids[3])
 			}
-			live.Err = j.Publish(m, live.Topics)
+			live.Err = j.Publish(m, append([]string(nil), live.Topics...))
 			live.Returned = true
 		})
 		vrt.Join(pub)
